@@ -1,19 +1,24 @@
 """C25 — exported ground programs keep the original semantics."""
 import itertools
+import os
+import sys
 from fractions import Fraction
 
 import vf
 import pl
 
+sys.path.insert(0, os.path.join(vf.VERIF, "gen"))
+import c25_dimacs as cd  # noqa: E402
+
 META = {
     "id": "C25",
     "level": "proof",
-    "technique": "Coq round-trip proof for the DIMACS writer model (incl. decimal printing) tied to CNF.to_dimacs by differential runs; to_prolog exports re-evaluated and compared (translation validation)",
+    "technique": "Coq round-trip proof for the DIMACS writer model (incl. decimal printing) tied to CNF.to_dimacs by a fail-closed Python-ast -> Gallina translation proved equal to the model, and by differential runs; to_prolog exports re-evaluated and compared (translation validation)",
     "design_ref": "DESIGN.md §5 C25",
     "text": "Theorem: for every CNF the writer can represent, a reference DIMACS reader applied to the model's output returns the atom count and exactly the stored clauses, hence the same models (unbounded; digits included). "
             "The model's token lines are compared with the real to_dimacs() output on CNFs of generated programs, and the real output is re-read by an independent reader and compared with the internal clause list. "
             "Exported ProbLog text (ground task, with and without cycle breaking) is re-parsed and re-evaluated and must give the original query probabilities.",
-    "note": "Trusted: Coq kernel; hand model of to_dimacs/_contents default path (sampled correspondence); str.join/str.split of CPython; "
+    "note": "Trusted: Coq kernel; to_dimacs/_contents default path TRANSLATED from the source on every run (gen/c25_dimacs.py, fail-closed; readings of the Python constructs in DimacsPrelude.v), proved equal to the hand model (C25_generated_is_model) and its string level proved to render the token lines (C25_generated_string_is_rendered_lines); both sampled against the real output; str.split of CPython (judge only); "
             "the to_prolog part is validation by re-evaluation with ProbLog itself and a harness world enumerator, not a proof about to_prolog.",
 }
 
@@ -24,6 +29,22 @@ Open Scope Z_scope.
 Fixpoint leq {A} (e : A -> A -> bool) (x y : list A) : bool :=
   match x, y with [], [] => true | a :: x', b :: y' => e a b && leq e x' y' | _, _ => false end.
 """
+
+
+HEADER_GEN = HEADER + """From PL.C25 Require Import DimacsPrelude GenDimacs.
+"""
+
+
+def generate(ctx):
+    """Regenerate coq/theories/C25/GenDimacs.v from vf.REPO (fail-closed translator).  On a translator
+    failure a stub without definitions is written first, so that the theorems about the generated model
+    cannot be discharged against a stale file; then the error is re-raised."""
+    try:
+        text = cd.translate(vf.REPO)
+    except Exception as e:
+        ctx.generate("C25/GenDimacs.v", cd.stub("%s: %s" % (type(e).__name__, e)))
+        raise
+    ctx.generate("C25/GenDimacs.v", text)
 
 
 def gen_program(rng):
@@ -114,7 +135,7 @@ def run_dimacs(ctx):
     n = ctx.n(150, 3000)
     srcs = [gen_program(ctx.rng) for _ in range(n)]
     res = pl.pmap(cnf_of, srcs)
-    cases, metas = [], []
+    cases, metas, gen_cases = [], [], []
     for src, r in zip(srcs, res):
         if r[0] == "err":
             ctx.count("dimacs_skip_" + r[1])
@@ -146,6 +167,9 @@ def run_dimacs(ctx):
         coq_t = vf.coq_list([vf.coq_list([vf.coq_string(t) + "%string" for t in ln]) for ln in toks])
         cases.append("leq (leq String.eqb) (to_dimacs_lines %s) %s" % (coq_f, coq_t))
         metas.append(src)
+        # the translated code, string level: the exact text (no str.split in between)
+        gen_cases.append("String.eqb (to_dimacs_str_gen %s) %s%%string && leq (leq String.eqb) (to_dimacs_lines_gen %s) %s"
+                         % (coq_f, vf.coq_string(txt), coq_f, coq_t))
     try:
         bad = ctx.coq_failing(HEADER, cases, name="dimacs")
     except RuntimeError as e:
@@ -155,6 +179,17 @@ def run_dimacs(ctx):
     ctx.cov["dimacs_model_vs_impl_agree"] = len(cases) - len(bad)
     for i in bad[:5]:
         ctx.broken.append("correspondence:ModelDimacs.to_dimacs_lines vs CNF.to_dimacs on program %r" % (metas[i],))
+    # the GENERATED definitions (translator output) against the same observed outputs: validates the translator's
+    # reading of the Python constructs (DimacsPrelude.v) independently of the equality proof in ProofsGen.v
+    try:
+        bad = ctx.coq_failing(HEADER_GEN, gen_cases, name="dimacsgen")
+    except RuntimeError as e:
+        ctx.broken.append("correspondence:GenDimacs does not evaluate")
+        ctx.notes.append(str(e)[-1500:])
+        return
+    ctx.cov["dimacs_generated_vs_impl_agree"] = len(gen_cases) - len(bad)
+    for i in bad[:5]:
+        ctx.broken.append("correspondence:GenDimacs.to_dimacs_str_gen/to_dimacs_lines_gen vs CNF.to_dimacs on program %r" % (metas[i],))
 
 
 # ------------------------------------------------------------------ to_prolog (validation by re-evaluation)
@@ -208,8 +243,17 @@ def run_to_prolog(ctx):
 def run(ctx):
     ctx.cov["rule"] = ("random propositional programs (1-5 facts, optional AD with body, 1-4 derived atoms with 1-3 clauses, optional positive cycles, stratified negation, optional evidence); "
                        "DIMACS: non-trivial = CNF with >=4 clauses; to_prolog: non-trivial = >=2 queries answered")
-    ctx.assumptions += ["hand model of the default to_dimacs path tied by sampled differential runs",
+    ctx.assumptions += ["to_dimacs/_contents (default options): translated from the source on every run (gen/c25_dimacs.py, unverified fail-closed "
+                        "glue + DimacsPrelude.v readings of the Python constructs; arms not taken under the default options are not read) and "
+                        "PROVED equal to the hand model; hand and generated model additionally tied by sampled differential runs "
+                        "(generated: exact text equality)",
+                        "stored clauses are [head] + body with head an int, None or a bool (comment clauses ['c', text] are not modelled)",
                         "to_prolog is validated per instance by re-evaluation, not proved"]
+    try:
+        generate(ctx)
+    except Exception as e:  # translator failed closed: recorded, the judges below still run
+        ctx.broken.append("translator:gen/c25_dimacs.py: %s" % (str(e)[:300],))
+        ctx.notes.append(str(e))
     ctx.prove("C25/Props.v")
     run_dimacs(ctx)
     run_to_prolog(ctx)
